@@ -308,10 +308,32 @@ def rule_worker_isolation(ctx, rep):
     WORKER = worker_fn(ctx).qname
     reach = ctx.cg.reachable([WORKER])
     mut_q = {m.qname for m in muts.values()}
+    per_file = _per_file_classes(ctx, reach)
     for q in sorted(reach):
         fn = ctx.prog.functions[q]
         r = ctx.resolver(fn)
         problems = []
+        # `self` of a method reached from the worker is shared by all workers unless its class is created per file
+        shared_self = (fn.cls is not None and fn.name not in ("__init__", "__new__", "__post_init__") and fn.params()[:1] == ["self"]
+                       and not _is_per_file(ctx, fn.cls.qname, per_file))
+        if shared_self:
+            for n in walk_no_nested(fn.node):
+                tg = n.targets if isinstance(n, ast.Assign) else ([n.target] if isinstance(n, (ast.AugAssign, ast.AnnAssign)) and getattr(n, "value", None) is not None else [])
+                for t in tg:
+                    base = t
+                    while isinstance(base, (ast.Attribute, ast.Subscript)):
+                        base = base.value
+                    if isinstance(base, ast.Name) and base.id == "self" and isinstance(t, (ast.Attribute, ast.Subscript)):
+                        problems.append((n, f"`{unparse(t)} = ...` on an object shared by all workers ({fn.cls.name} is created once per codemod, not per file): "
+                                            "per-file data kept there is overwritten by the worker of another file between store and read"))
+                if isinstance(n, ast.Call) and isinstance(n.func, ast.Attribute) and n.func.attr in ("append", "extend", "update", "add", "setdefault", "pop", "clear", "insert", "remove"):
+                    base = n.func.value
+                    depth_ = 0
+                    while isinstance(base, (ast.Attribute, ast.Subscript)):
+                        base = base.value
+                        depth_ += 1
+                    if isinstance(base, ast.Name) and base.id == "self" and depth_ >= 1:
+                        problems.append((n, f"`{unparse(n)[:50]}` mutates state of an object shared by all workers ({fn.cls.name})"))
         if q in mut_q:
             problems.append((fn.node, f"context mutator {fn.name} is reachable from the worker"))
         for n in walk_no_nested(fn.node):
@@ -353,6 +375,52 @@ def rule_worker_isolation(ctx, rep):
                   path=ctx.cg.path(WORKER, q) if problems else None)
 
 
+VISITOR_BASES = ("libcst.CSTVisitor", "libcst.CSTTransformer", "libcst.codemod.", "libcst.MetadataDependent", "libcst.matchers.Matcher", "xml.sax")
+
+
+def _per_file_classes(ctx, reach) -> set[str]:
+    """classes instantiated by worker-reachable code (plus the default_factory fields of those that are dataclasses)"""
+    out: set[str] = set()
+    for q in reach:
+        fn = ctx.prog.functions[q]
+        r = ctx.resolver(fn)
+        for n in walk_no_nested(fn.node):
+            if isinstance(n, ast.Call):
+                try:
+                    ts = r.resolve_call(n)
+                except Exception:
+                    ts = []
+                for t in ts:
+                    if isinstance(t, FuncInfo) and t.name == "__init__" and t.cls is not None:
+                        out.add(t.cls.qname)
+                    elif isinstance(t, str) and t in ctx.prog.classes:
+                        out.add(t)
+    work = list(out)
+    while work:
+        cq = work.pop()
+        ci = ctx.prog.classes.get(cq)
+        if ci is None:
+            continue
+        for st in ci.node.body:
+            if isinstance(st, ast.AnnAssign) and isinstance(st.value, ast.Call) and call_name(st.value) in ("field", "dataclasses.field"):
+                for k in st.value.keywords:
+                    if k.arg == "default_factory":
+                        q2 = ctx.prog.resolve_expr_name(ci.module, k.value)
+                        if q2 in ctx.prog.classes and q2 not in out:
+                            out.add(q2)
+                            work.append(q2)
+    return out
+
+
+def _is_per_file(ctx, cq: str, per_file: set[str]) -> bool:
+    for m in ctx.prog.mro(cq):
+        if m in per_file:
+            return True
+        if m in ctx.prog.classes and any(e.startswith(VISITOR_BASES) for e in ctx.prog.external_bases(m)):
+            return True  # libcst / sax visitors and transformers are instantiated for each module they process
+    return False
+
+
 def _dependency_adds(ctx):
     """class qname -> set of dependency expressions passed to add_dependency in its own methods."""
     out: dict[str, set[str]] = {}
@@ -372,15 +440,24 @@ def partial_key_sorts(ctx, fn: FuncInfo):
     r = ctx.resolver(fn)
 
     def partial(keyfn) -> bool:
+        """the key looks at one projection of the element only (x[0], len(p.parts), p.name): elements that agree on it keep source order"""
         if not isinstance(keyfn, ast.Lambda) or len(keyfn.args.args) != 1:
             return False
         p = keyfn.args.args[0].arg
         uses = [n for n in ast.walk(keyfn.body) if isinstance(n, ast.Name) and n.id == p]
         pm = {id(c): par for par in ast.walk(keyfn.body) for c in ast.iter_child_nodes(par)}
-        if not uses or not all(isinstance(pm.get(id(u)), ast.Subscript) and pm[id(u)].value is u for u in uses):
+        if not uses:
             return False
-        idx = {unparse(pm[id(u)].slice) for u in uses}
-        return len(idx) == 1  # one component only; several components are taken as the whole element
+        proj = set()
+        for u in uses:
+            par = pm.get(id(u))
+            if isinstance(par, ast.Subscript) and par.value is u:
+                proj.add("[" + unparse(par.slice) + "]")
+            elif isinstance(par, ast.Attribute) and par.value is u and par.attr not in ("as_posix", "resolve", "absolute", "lower", "casefold", "__str__", "__fspath__"):
+                proj.add("." + par.attr)
+            else:
+                return False  # the element itself takes part in the key (bare, str(p), p.as_posix() ...)
+        return len(proj) == 1  # one component only; several components are taken as the whole element
 
     for n in walk_no_nested(fn.node):
         if isinstance(n, ast.Call):
